@@ -84,8 +84,17 @@ type LimbDom struct {
 	Prims map[string]func(in *Interp, site ssa.Instruction, args []Val) []Val
 	// SubLog: every bits.Sub64 whose borrow is symbolic (Flat mode): operands, incoming and outgoing borrow
 	SubLog []SubRec
+	// MulLog: every bits.Mul64 by a constant (Flat mode): the constant and the other operand (a 64-bit word)
+	MulLog []MulRec
 	// NoCmovPrim: interpret the body of fiatScalarCmovznzU64 instead of applying its contract (FIAT-CMOV checks it)
 	NoCmovPrim bool
+}
+
+// MulRec is one 64×64 multiplication of a word (polynomial Other, at most OtherHi) by the constant Const.
+type MulRec struct {
+	Const   *big.Int
+	Other   *poly.Poly
+	OtherHi *big.Int
 }
 
 // SubRec is one word of a multi-word subtraction: Out = [X − Y − In < 0].
@@ -973,6 +982,13 @@ func (d *LimbDom) flatCall(in *Interp, site ssa.Instruction, fn *ssa.Function, n
 		}
 		wlo, whi := new(big.Int).Mul(a.Lo, b.Lo), new(big.Int).Mul(a.Hi, b.Hi)
 		wp := pol(a, b, func(p, q *poly.Poly) *poly.Poly { return p.Mul(q) })
+		if a.P != nil && b.P != nil {
+			if k, isC := b.P.IsConst(); isC {
+				d.MulLog = append(d.MulLog, MulRec{Const: k, Other: a.P, OtherHi: a.Hi})
+			} else if k, isC := a.P.IsConst(); isC {
+				d.MulLog = append(d.MulLog, MulRec{Const: k, Other: b.P, OtherHi: b.Hi})
+			}
+		}
 		hiP := d.shrPoly(wp, 64, whi)
 		hi := d.mk(new(big.Int).Rsh(wlo, 64), new(big.Int).Rsh(whi, 64), hiP)
 		var lo Val
